@@ -272,6 +272,25 @@ FIXED += [
       "validate": "check"}),
 ]
 
+FIXED += [
+    ("F41-join-suffix-right-collision", "C06", "join suffix must not collide with an unrenamed right column",
+     "join raised ValueError when the suffixed name of a clashing column equals another right column",
+     {"tables": [src([["y", "int64"], ["a", "int64"]], [[1, 1], [2, 2]]), src([["y", "int64"], ["y_t1", "int64"]], [[1, 5], [2, 6]], "t1")],
+      "steps": [S(), S("v1", "t1"), {"out": "v2", "verb": "join", "in": "v0", "right": "v1", "how": "inner",
+                                      "on": [F("eq", V("v0", "y"), V("v1", "y"))]}], "result": "v2"}),
+]
+
+FIXED += [
+    ("F42-polars-chained-nonequi-left-join", "C06", "consecutive non-equi left joins on polars",
+     "Polars: a second left join with a non-equality condition raised DuplicateError (id_right)",
+     {"tables": [src([["id", "int64"], ["c", "int64"]], [[1, 1], [2, 5], [3, 9]])],
+      "steps": [S(), st("v1", "alias", "v0", keep=False, name="a"),
+                {"out": "v2", "verb": "join", "in": "v0", "right": "v1", "how": "left", "on": [F("lt", V("v0", "c"), V("v1", "c"))], "suffix": "_x"},
+                S("v3", "t0", name="b"),
+                {"out": "v4", "verb": "join", "in": "v2", "right": "v3", "how": "left", "on": [F("gt", V("v3", "c"), V("v0", "c"))], "suffix": "_t1"}],
+      "result": "v4"}),
+]
+
 
 def main():
     log = subprocess.run(["git", "-C", "/repo", "log", "--format=%h %s"], capture_output=True, text=True).stdout.splitlines()
